@@ -235,6 +235,23 @@ mod tests {
     use super::*;
 
     #[test]
+    fn recycled_head_is_reset() {
+        let mut req = Request::new();
+        req.head_mut().peer_addr = Some("127.0.0.1:4321".parse().unwrap());
+        req.head_mut().method = Method::POST;
+        req.head_mut().version = Version::HTTP_10;
+        *req.uri_mut() = Uri::from_static("/stale");
+        drop(req);
+
+        // the head of the dropped request is taken from the thread-local pool again
+        let req = Request::new();
+        assert_eq!(req.peer_addr(), None);
+        assert_eq!(req.method(), Method::GET);
+        assert_eq!(req.version(), Version::HTTP_11);
+        assert_eq!(req.uri().path(), "/");
+    }
+
+    #[test]
     fn test_basics() {
         let msg = Message::new();
         let mut req = Request::from(msg);
